@@ -88,6 +88,19 @@ func (e entCase) data() []byte {
 		for len(out) < n {
 			out = append(out, 0)
 		}
+	case "hotquarter":
+		// non-stationary chunks: per 16 KiB chunk three quarters use two byte values (2/3, 1/3), the
+		// quarter number K is uniform over the other 254 values (long codes concentrated in one place)
+		for i := 0; len(out) < n; i++ {
+			q := (i % 16384) / 4096
+			if q == e.K%4 {
+				out = append(out, byte(2+(i*131+i/254)%254))
+			} else if i%3 == 0 {
+				out = append(out, 1)
+			} else {
+				out = append(out, 0)
+			}
+		}
 	case "kflat":
 		// exactly K distinct symbols, evenly used, spread over the byte range (alphabet encoding modes)
 		k := max(e.K, 1)
@@ -221,7 +234,7 @@ var famEnt = NewFamily("C12.block", runEntropy)
 
 func init() {
 	register("C12", "exploration", func(c *Ctx) {
-		c.Rule("per codec the complete product: length in {0..40, 63..65, chunk-1, chunk, chunk+1, 2*chunk+7 for the codec's chunk size} + a ladder of 25 odd lengths in 4-16 KiB; histogram in {1 symbol, 2, 16, 255 flat, 256 flat, exactly k symbols for 20 alphabet sizes 1..256 (alphabet encoding modes), geometric, Fibonacci and geometric with ratio 0.50..0.80 over 24..250 symbols at totals 2048..16384 (deep Huffman trees, code-length repair and its retry), k rare symbols of count c + m dominant for k in {64,128,192,240,250}, c in 1..12 (quick: {1,3,7,12}), m in {1,2,4,8,16}}; arrangement in {sorted, interleaved, reversed}; the block starts at bit offset 3 and is followed by a 64-bit sentinel + 6 bits. Oracle: decoded == block, decoder consumed exactly the bits the encoder wrote, sentinel intact. Adaptive codecs (CM/TPAQ/TPAQX/FPAQ at 4 MiB) use the reduced grid in quick. Non-trivial = non-empty block")
+		c.Rule("per codec the complete product: length in {0..40, 63..65, chunk-1, chunk, chunk+1, 2*chunk+7 for the codec's chunk size} + a ladder of 25 odd lengths in 4-16 KiB; histogram in {1 symbol, 2, 16, 255 flat, 256 flat, non-stationary chunks (long codes concentrated in one quarter of a 16 KiB chunk), exactly k symbols for 20 alphabet sizes 1..256 (alphabet encoding modes), geometric, Fibonacci and geometric with ratio 0.50..0.80 over 24..250 symbols at totals 2048..16384 (deep Huffman trees, code-length repair and its retry), k rare symbols of count c + m dominant for k in {64,128,192,240,250}, c in 1..12 (quick: {1,3,7,12}), m in {1,2,4,8,16}}; arrangement in {sorted, interleaved, reversed}; the block starts at bit offset 3 and is followed by a 64-bit sentinel + 6 bits. Oracle: decoded == block, decoder consumed exactly the bits the encoder wrote, sentinel intact. Adaptive codecs (CM/TPAQ/TPAQX/FPAQ at 4 MiB) use the reduced grid in quick. Non-trivial = non-empty block")
 		famEnt.Each(c, 0, func(emit func(entCase)) {
 			ladder := []int{}
 			for i := 0; i < 25; i++ {
@@ -264,6 +277,14 @@ func init() {
 							continue
 						}
 						emit(entCase{Codec: codec, Len: n, Hist: "kflat", K: k, Arr: "inter"})
+					}
+				}
+				for _, n := range []int{9217, 16384, 20000, 40000} {
+					for q := 0; q < 4; q++ {
+						if adaptive && !c.Thorough() {
+							continue
+						}
+						emit(entCase{Codec: codec, Len: n, Hist: "hotquarter", K: q, Arr: "sorted"})
 					}
 				}
 				hists := []string{"1sym", "2sym", "16sym", "255flat", "256flat", "geo", "fib"}
